@@ -210,6 +210,23 @@ func (r *reqEnv) close() {
 	}
 }
 
+// monitors runs the wire-level monitors that apply to every request: handle life cycle (C10) and the runaway guards (C08).
+func (r *reqEnv) monitors(tag string) {
+	if lc := r.w.Lifecycle(); len(lc) > 0 {
+		r.c.Violate("C10", "lifecycle/request", fmt.Sprintf("%s: %v", tag, lc), nil)
+	}
+	r.w.Lock()
+	defer r.w.Unlock()
+	for _, h := range r.w.Handles {
+		if h.ReadOverrun {
+			r.c.Violate("C08", "runaway-reader/request", fmt.Sprintf("%s: handle %d kept reading without bound (stopped by the harness after 400000 reads)", tag, h.Idx), nil)
+		}
+		if h.Overrun {
+			r.c.Violate("C06", "runaway-sender/request", fmt.Sprintf("%s: handle %d wrote more than 600 packets", tag, h.Idx), nil)
+		}
+	}
+}
+
 func (r *reqEnv) flowList() []*simEnv {
 	r.mu.Lock()
 	defer r.mu.Unlock()
